@@ -126,6 +126,9 @@ def _run_job(args):
         _facade.OPAQUE_INV_FROM = None  # per-job switches must not leak between jobs run by the same worker
         _facade.USED_STUBS.clear()
         _facade._ACTIVE[0] = False
+        from . import sym as _sym
+
+        _sym.INPLACE_PROMOTIONS[0] = 0
     except Exception:
         pass
     try:
@@ -139,6 +142,11 @@ def _run_job(args):
     res.smt_samples = list(smt.SAMPLES)
     res.wall_s = time.time() - t0
     res.functions = sorted(res.functions)
+    try:
+        if _sym.INPLACE_PROMOTIONS[0]:
+            res.stubs = set(res.stubs) | {"in-place arithmetic `float array (op)= symbolic scalar` -> rebinding to the object-dtype result (aliases of the float buffer are not updated; read-only buffers raise as in numpy)"}
+    except Exception:
+        pass
     res.stubs = sorted(res.stubs)
     return res
 
